@@ -262,6 +262,12 @@ func (s *JavaFullListener) EnterInterfaceMethodDeclaration(ctx *parser.Interface
 	updateMethod(method)
 }
 
+// an interface method ends like a class method: what follows it (the initialiser of a constant)
+// is not part of it
+func (s *JavaFullListener) ExitInterfaceMethodDeclaration(ctx *parser.InterfaceMethodDeclarationContext) {
+	exitMethod()
+}
+
 func (s *JavaFullListener) EnterFormalParameter(ctx *parser.FormalParameterContext) {
 	formalParameters[ctx.VariableDeclaratorId().GetText()] = ctx.TypeType().GetText()
 }
